@@ -119,8 +119,7 @@ def _eval_cmp(t, total, mark):
     return None
 
 
-def rule_r2(ctx):
-    rid = "C12.R2"
+def rule_r2(ctx, rid="C12.R2"):
     ctx.r.rule(rid, "complementarity: whenever the producer's reason to sleep (P) is gone the consumer's notify guard (Q) holds, and an empty backlog never makes the producer wait - evaluated on a grid of (total, mark) covering <,=,> and the degenerate mark 0")
     # P: loop condition conjuncts mentioning the pending-output counter
     Ps = []
@@ -180,8 +179,7 @@ def rule_r2(ctx):
                 ctx.r.ok(rid, "wait predicate (%s) and notify guard (%s) are complementary on the grid" % (ptxt, qtxt), qf.loc(qn.ast))
 
 
-def rule_r3(ctx):
-    rid = "C12.R3"
+def rule_r3(ctx, rid="C12.R3"):
     ctx.r.rule(rid, "predicate waits sit in a while loop whose condition includes connected; handle_close stores connected = False before notify, both inside the lock")
     p = ctx.p
     lk = get_locks(p)
@@ -236,8 +234,7 @@ def rule_r4(ctx):
     ctx.r.floor(rid, n, 4, "wait/notify call sites on the output condition")
 
 
-def rule_r5(ctx):
-    rid = "C12.R5"
+def rule_r5(ctx, rid="C12.R5"):
     ctx.r.rule(rid, "every wait is immediately preceded by a wake-up of the I/O thread; the handlers of a failing flush mark the channel for closing")
     p = ctx.p
     cg = get_callgraph(p)
